@@ -908,6 +908,23 @@ func (h *history) interlope(inflight *TxnSpec, reserved []uint32) {
 			kept = append(kept, o)
 		}
 	}
+	// boundary re-check: dropping operations invalidates the generator's simulation of this transaction
+	// (a merge generated on top of a store that was dropped now lands on the committed value) - no
+	// concatenating merge may push a value towards the 65 535-byte buffer limit
+	for i := range kept {
+		o := &kept[i]
+		if o.T != "at" {
+			continue
+		}
+		var ws []Write
+		for _, w := range o.W {
+			if k := m.col(w.Col).Kind; w.Merge && (k == KStringCat || k == KRecordMerge) && len(m.Cells[w.Col][o.Off].S)+len(w.V.S) > 60000 {
+				continue
+			}
+			ws = append(ws, w)
+		}
+		o.W = ws
+	}
 	t2.Ops = kept
 	if len(t2.Ops) == 0 {
 		return
